@@ -1167,6 +1167,153 @@ def z_shape_problem(fn: ast.AST, z: ast.AST) -> Optional[str]:
 
 
 # ---------------------------------------------------------------------------------------------------------
+# D1 one resolution: the fixed-width template of a stamp, and the digits of the fraction of a second it carries
+# ---------------------------------------------------------------------------------------------------------
+_STRFTIME_WIDTH = {"Y": "9999", "m": "99", "d": "99", "H": "99", "M": "99", "S": "99", "f": "ffffff", "y": "99", "j": "999", "%": "%"}
+_ISO_FRACTION = {"seconds": "", "milliseconds": ".fff", "microseconds": ".ffffff"}
+_STAMP_SHAPE = re.compile(r"^9{4}-99-99[Tt _]99:99:99(\.([9f]+))?Z$")
+
+
+def _strftime_template(fmt: str) -> Optional[str]:
+    """The text `strftime(fmt)` renders with every digit replaced by its class (`9`, `f` for the microsecond field);
+    None when a directive has no fixed numeric width (names, offsets, platform padding flags)."""
+    out, i = [], 0
+    while i < len(fmt):
+        ch = fmt[i]
+        if ch != "%":
+            out.append(ch)
+            i += 1
+            continue
+        d = fmt[i + 1:i + 2]
+        if d not in _STRFTIME_WIDTH:
+            return None
+        out.append(_STRFTIME_WIDTH[d])
+        i += 2
+    return "".join(out)
+
+
+def _int_const(e: Optional[ast.AST]) -> Tuple[bool, Optional[int]]:
+    """(readable, value) of a slice bound: absent, an int constant or its negation."""
+    if e is None:
+        return True, None
+    if isinstance(e, ast.UnaryOp) and isinstance(e.op, ast.USub) and isinstance(e.operand, ast.Constant) and type(e.operand.value) is int:
+        return True, -e.operand.value
+    if isinstance(e, ast.Constant) and type(e.value) is int:
+        return True, e.value
+    return False, None
+
+
+def stamp_template(fn: ast.AST, e: Optional[ast.AST], depth: int = 0) -> Optional[str]:
+    """The text that expression *e* of *fn* renders from a clock reading, with every digit replaced by its class (`9`;
+    `f` for the digits of the microsecond field), when that text has one width at every instant: renderings by
+    `isoformat` with an explicit timespec, `strftime`, format specs with strftime directives, zero-padded integers,
+    constant pieces, concatenation / f-string / `format` / `%` / `join`, positional cuts with constant bounds and
+    constant-for-constant `replace`.  None when the width (or the shape) cannot be read from the code."""
+    if e is None or depth > 12:
+        return None
+    if depth == 0:
+        e = expand(fn, e)
+    while isinstance(e, ast.Call) and isinstance(e.func, ast.Name) and e.func.id == "str" and len(e.args) == 1 and not e.keywords:
+        e = e.args[0]
+    if isinstance(e, ast.Constant):
+        return e.value if isinstance(e.value, str) else None
+    if isinstance(e, ast.BinOp) and isinstance(e.op, ast.Add):
+        a, b = stamp_template(fn, e.left, depth + 1), stamp_template(fn, e.right, depth + 1)
+        return a + b if a is not None and b is not None else None
+    if isinstance(e, ast.JoinedStr):
+        out = []
+        for v in e.values:
+            if isinstance(v, ast.Constant):
+                out.append(str(v.value))
+                continue
+            if not isinstance(v, ast.FormattedValue) or v.conversion not in (-1, 115):
+                return None
+            if v.format_spec is None:
+                t = stamp_template(fn, v.value, depth + 1)
+            else:
+                if not all(isinstance(c, ast.Constant) and isinstance(c.value, str) for c in v.format_spec.values):
+                    return None
+                spec = "".join(c.value for c in v.format_spec.values)
+                if "%" in spec:
+                    t = _strftime_template(spec)
+                elif _PADDED_INT.match(spec):
+                    t = "9" * int(re.sub(r"\D", "", spec) or 0)
+                else:
+                    t = None
+            if t is None:
+                return None
+            out.append(t)
+        return "".join(out)
+    if isinstance(e, ast.IfExp):
+        a, b = stamp_template(fn, e.body, depth + 1), stamp_template(fn, e.orelse, depth + 1)
+        return a if a is not None and a == b else None
+    if isinstance(e, ast.Subscript) and isinstance(e.slice, ast.Slice):
+        t = stamp_template(fn, e.value, depth + 1)
+        bounds = [_int_const(b) for b in (e.slice.lower, e.slice.upper, e.slice.step)]
+        if t is None or not all(ok for ok, _v in bounds):
+            return None
+        return t[slice(*[v for _ok, v in bounds])]
+    parts = joined_parts(e) if isinstance(e, (ast.Call, ast.BinOp)) else None
+    if parts is not None:
+        ts = [stamp_template(fn, p, depth + 1) for p in parts]
+        return "".join(ts) if all(t is not None for t in ts) else None
+    if isinstance(e, ast.Call) and isinstance(e.func, ast.Attribute):
+        m = e.func.attr
+        if m == "replace" and not e.keywords and len(e.args) == 2 and all(isinstance(a, ast.Constant) and isinstance(a.value, str) for a in e.args):
+            t = stamp_template(fn, e.func.value, depth + 1)
+            return t.replace(e.args[0].value, e.args[1].value) if t is not None else None
+        if m == "isoformat":
+            spec = _timespec(e)
+            sep = kwarg(e, "sep") or (e.args[0] if e.args else None)
+            if spec not in _ISO_FRACTION or not (sep is None or (isinstance(sep, ast.Constant) and isinstance(sep.value, str) and len(sep.value) == 1)):
+                return None  # auto (width depends on the instant), hours / minutes, or not a constant: no fixed template
+            return "9999-99-99" + (sep.value if sep is not None else "T") + "99:99:99" + _ISO_FRACTION[spec] + ("+00:00" if _aware_receiver(fn, e) else "")
+        if m == "strftime" and len(e.args) == 1 and not e.keywords and isinstance(e.args[0], ast.Constant) and isinstance(e.args[0].value, str):
+            return _strftime_template(e.args[0].value)
+    return None
+
+
+def fraction_digits(fn: ast.AST, z: ast.AST) -> Optional[int]:
+    """How many digits of the fraction of a second the Z-labelled string *z* carries at every instant (0: whole seconds);
+    None when the rendering has no fixed template this analysis can read (other rules judge its shape)."""
+    t = stamp_template(fn, z)
+    m = _STAMP_SHAPE.match(t) if t is not None else None
+    if m is None:
+        return None
+    return len(m.group(2) or "")
+
+
+_RESOLUTION_NAME = {0: "whole seconds", 3: "milliseconds", 6: "microseconds"}
+
+
+def check_one_resolution(R: Report, rule: str, stamps: List[Tuple[str, str, ast.AST, Optional[int]]]) -> None:
+    """All stamp producers of the trace stream cut the clock reading at the same resolution.
+
+    A trace stream interleaves the stamps of its producers in both orders (lifecycle record -> SER timing at the head
+    of a run, SER timing -> lifecycle record at its end).  Each stamp is the true instant cut down to its last digit; a
+    stamp cut at a coarser unit that follows a finer one read in the same coarse unit denotes an earlier instant
+    (`..40.000250Z` then `..40.000Z`), so `non-decreasing along the stream` holds on every host only when all producers
+    render the same number of digits of the fraction of a second."""
+    known = [(rel, qn, z, d) for rel, qn, z, d in stamps if d is not None]
+    if not known:
+        return  # no instance: the rule's minimum turns this into an ANALYSIS-ERROR
+    coarse = min(known, key=lambda s: s[3])
+    for rel, qn, z, d in known:
+        unit = _RESOLUTION_NAME.get(d, f"{d} digits")
+        if d == coarse[3]:
+            R.ok(rule, rel, qn, norm(stmt_of(z))[:110], f"fraction of a second: {d} digits ({unit})", z.lineno)
+            continue
+        R.violation(
+            rule, rel, qn, norm(stmt_of(z))[:110],
+            f"this producer stamps records with {d} digits of the fraction of a second ({unit}) while `{coarse[1]}` ({coarse[0]}:{coarse[2].lineno}) stamps records of the same stream with {coarse[3]} "
+            f"({_RESOLUTION_NAME.get(coarse[3], str(coarse[3]) + ' digits')}): every stamp is the clock reading cut down to its last digit, and the stream interleaves the two kinds in both orders "
+            "(lifecycle record -> SER timing at the head of a run, SER timing -> lifecycle record at its end), so a coarser stamp written after a finer one within the same coarse unit denotes an earlier instant "
+            "(`..40.000250Z` followed by `..40.000Z`): timestamps are not non-decreasing along the stream",
+            z.lineno,
+        )
+
+
+# ---------------------------------------------------------------------------------------------------------
 # D5 one encoding: values of JSON-native types reach their bytes through the canonical JSON encoder only
 # ---------------------------------------------------------------------------------------------------------
 _BUFFER_TYPES = {"bytes", "bytearray", "memoryview"}
@@ -2185,7 +2332,9 @@ def run(repo: Repo, R: Report) -> None:
     # ------------------------------------------------------------------ D1 UTC
     r_utc = R.rule("C07-D1-utc-timestamps", "every string labelled with the UTC designator Z is produced from a UTC-anchored clock read; SER timing and driver timestamps come from such producers", 4)
     r_shape = R.rule("C07-D1-rfc3339-shape", "the text that receives the designator Z is a complete RFC 3339 date-time at every instant: positional cuts are applied only to fixed-width renderings (isoformat with an explicit timespec of seconds or finer, strftime), never to isoformat() whose width depends on the microsecond field; no offset besides the Z; a fraction of a second assembled by hand is the sub-second field cut down (floor) and zero-padded, never rounded (a rounded field reaches the next whole unit without a carry into the seconds)", 2)
+    r_res = R.rule("C07-D1-one-resolution", "all producers of the stamps of one trace stream (lifecycle record timestamps, SER timing) cut the clock reading at the same resolution - they render the same number of digits of the fraction of a second: the stream interleaves the producers in both orders, and a stamp cut at a coarser unit that follows a finer one read within the same coarse unit denotes an earlier instant, so the stream would not be non-decreasing", 2)
     producers: Dict[str, str] = {}
+    stamps: List[Tuple[str, str, ast.AST, Optional[int]]] = []
     n_z = 0
     for rel in TS_FILES:
         if not repo.has_module(rel):
@@ -2204,6 +2353,7 @@ def run(repo: Repo, R: Report) -> None:
                 n_z += 1
                 why = z_shape_problem(fn, z) or fraction_rendering_problem(fn, z)
                 R.check(why is None, r_shape, rel, qn, norm(stmt_of(z))[:110], why or "", z.lineno)
+                stamps.append((rel, qn, z, fraction_digits(fn, z) if why is None else None))
                 # the clock may be read in this expression or in a local it uses
                 scope: List[ast.AST] = closure(fn, z)
                 verdicts = [utc_anchored(s) for s in scope]
@@ -2220,6 +2370,7 @@ def run(repo: Repo, R: Report) -> None:
                     R.violation(r_utc, rel, qn, norm(stmt_of(z))[:110], "a Z-labelled string whose clock source is not recognisably UTC-anchored", z.lineno)
     if n_z < 2:
         raise AnalysisError(f"only {n_z} Z-labelled timestamp producer(s) found (2 confirmed by reading)")
+    check_one_resolution(R, r_res, stamps)
     # SER timing flows from the producers
     ex = A.ex
     mk = A.nf("record")
